@@ -18,10 +18,16 @@ theorem Macros.locale_eq : ∀ lit, UL.Src.Macros.locale lit = UL.Macros.locale 
   cases h : Locale.fromBytes lit with
   | ok x =>
     simp only [UL.SrcTie.Locale.intoParts_eq, Locale.intoParts, MTok.evalLocale]
-    refine (congrArg (fun z => MacroOut.both (fun (i : LangId) (m : ExtMap) => ({ id := i, ext := m } : Locale)) z
-      (MTok.evalExt (MTok.parseExpect (MTok.str (ExtMap.display x.ext))))) (Macros.evalLangId_parts x.id)).trans ?_
-    simp only [MTok.evalExt]
-    cases hm : ExtMap.fromBytes (ExtMap.display x.ext) <;> simp [MacroOut.both]
+    first
+    | (refine (congrArg (fun z => MacroOut.both (fun (i : LangId) (m : ExtMap) => ({ id := i, ext := m } : Locale)) z
+        (MTok.evalExt (MTok.parseExpect (MTok.str (ExtMap.display x.ext))))) (Macros.evalLangId_parts x.id)).trans ?_
+       simp only [MTok.evalExt]
+       cases hm : ExtMap.fromBytes (ExtMap.display x.ext) <;> simp [MacroOut.both])
+    | -- the same case analysis on the term as the source writes it (branches in another order, another condition)
+      (obtain ⟨⟨l, s, r, vs⟩, e⟩ := x
+       cases l <;> cases s <;> cases r <;> cases hv : (vs.getD []).isEmpty <;> cases hm : ExtMap.fromBytes (ExtMap.display e) <;>
+         simp [MTok.evalLangId, MTok.evalLang, MTok.evalOptScript, MTok.evalOptRegion, MTok.evalScript, MTok.evalRegion,
+           MTok.evalVariants, MTok.evalExt, Macros.evalArr_variants, MacroOut.both, MacroOut.map, Macros.idViaRaw, Macros.viaRaw, hv, hm])
   | err e => rfl
   | panic => rfl
 
